@@ -123,6 +123,11 @@ static void body(const Case &cs, Status &st, uint64_t fail_at) {
             deser(d, cs.ovl, *cs.bytes, cs.max_depth);
             std::vector<uint8_t> ser = d.serialize();
             if (ser.size() != cs.bytes->size() || (ser.size() && memcmp(ser.data(), cs.bytes->data(), ser.size()) != 0)) note(st, "serialize(deserialize(bytes)) != bytes");
+        } else if (cs.op == 3) {
+            // toStr(): exercised for crashes, leaks and non-std exceptions only (the text itself is C14's business)
+            build(b, *cs.tree, cs.order_seed);
+            std::string t = b.toStr();
+            (void)t;
         } else {
             deser(d, cs.ovl, *cs.bytes, cs.max_depth);
         }
@@ -160,7 +165,7 @@ Plan cppwrap_generate(uint64_t base, const std::string &prop, uint64_t index, in
     p.note = tree_text(t);
     p.max_depth = 10;
     unsigned o = (unsigned)ro.below(100);
-    int op = o < 40 ? 0 : o < 55 ? 1 : 2;
+    int op = o < 36 ? 0 : o < 50 ? 1 : o < 56 ? 3 : 2;
     p.par["op"] = op;
     p.par["ovl"] = (int64_t)ro.below(3);
     p.par["order"] = (int64_t)(ro.next() >> 8);
@@ -210,7 +215,8 @@ Result cppwrap_execute(const Plan &p, const ExecCtx &c) {
     bump(r.cnt, fmt("cpp.op%d", op)); bump(r.cnt, fmt("cpp.overload%d", ovl));
     if (live1 != live0) sink.fail("C15.leak", fmt("%ld allocations made inside the operation were never freed", live1 - live0));
     if (st.outcome == OUT_OTHER) sink.fail("C15.non_std_exception", "something not derived from std::exception was thrown");
-    if (op != 2) {
+    if (op == 3) { /* toStr: only crash / leak / non-std exception count */ }
+    else if (op != 2) {
         if (st.outcome != OUT_NORMAL) sink.fail("C15.roundtrip.threw", "an exception on a valid tree / document without any injected fault");
         else if (!st.correct) sink.fail("C15.roundtrip.wrong", st.detail);
     } else {
